@@ -211,9 +211,53 @@ func parseSGR(params [][]int, style *Style)
   loop 1 assert C18_step: !SgrStop(params, head(i)) && i == SgrNext(params, head(i)) && *style == SgrStyle(params, head(i), head(*style))
   exit assert C18_stop: i < len(params) ==> SgrStop(params, i)
 
+-- producers (C18): the pen a terminal has after the emitted tokens always equals the style being tracked,
+-- and is reset at the end. pen() is the ghost rendition obtained by folding SgrStyle over every emitted SGR template.
+pred NoStyle(s Style) = s.Foreground == 0 && s.Background == 0 && s.UnderlineColor == 0 && s.UnderlineStyle == 0 && s.Attribute == 0
+pred SameStyle(a Style, b Style) = a.Foreground == b.Foreground && a.Background == b.Background && a.UnderlineColor == b.UnderlineColor
+                                && a.UnderlineStyle == b.UnderlineStyle && a.Attribute == b.Attribute
+                                && a.Hyperlink == b.Hyperlink && (b.Hyperlink != "" ==> a.HyperlinkParams == b.HyperlinkParams)
+
+-- colours built by the API constructors (default, IndexColor, RGBColor/HexColor); underline styles are the six enumerated ones
+pred ColorWF(c Color) = c == 0 || c == (c & 255) + 16777216 || c == (c & 16777215) + 33554432
+-- (bit 0 of an attribute mask is not an attribute: AttrBold is 1<<1)
+pred StyleWF(s Style) = ColorWF(s.Foreground) && ColorWF(s.Background) && ColorWF(s.UnderlineColor) && s.UnderlineStyle <= 5 && s.Attribute & 1 == 0
+
+func EncodeCells(cells []Cell) string
+  tokens
+  requires start: NoStyle(pen()) && pen().Hyperlink == ""
+  requires wf: forall k in 0..len(cells): StyleWF(cells[k].Style)
+  loop 1 invariant wf: -1 <= rangeindex && StyleWF(cursor) && (forall k in 0..len(cells): StyleWF(cells[k].Style))
+  ensures C18_reset: NoStyle(pen())
+  loop 1 invariant C18_fg:   pen().Foreground == cursor.Foreground
+  loop 1 invariant C18_bg:   pen().Background == cursor.Background
+  loop 1 invariant C18_ul:   pen().UnderlineColor == cursor.UnderlineColor
+  loop 1 invariant C18_uls:  pen().UnderlineStyle == cursor.UnderlineStyle
+  loop 1 invariant C18_attr: pen().Attribute == cursor.Attribute
+  loop 1 invariant C18_link: pen().Hyperlink == cursor.Hyperlink
+
+func (ss *StyledString) Encode() string
+  tokens
+  requires start: NoStyle(pen()) && pen().Hyperlink == ""
+  requires wf: forall k in 0..len(ss.Cells): StyleWF(ss.Cells[k].Style)
+  ensures C18_reset: NoStyle(pen())
+  loop 1 invariant wf: -1 <= rangeindex && StyleWF(cursor) && (forall k in 0..len(ss.Cells): StyleWF(ss.Cells[k].Style))
+  loop 1 invariant C18_fg:   pen().Foreground == cursor.Foreground
+  loop 1 invariant C18_bg:   pen().Background == cursor.Background
+  loop 1 invariant C18_ul:   pen().UnderlineColor == cursor.UnderlineColor
+  loop 1 invariant C18_uls:  pen().UnderlineStyle == cursor.UnderlineStyle
+  loop 1 invariant C18_attr: pen().Attribute == cursor.Attribute
+  loop 1 invariant C18_link: pen().Hyperlink == cursor.Hyperlink
+
+-- NewStyledString parses the string form; every leading SGR code StyledString.Encode can emit must have a case here
+func (vx *Vaxis) NewStyledString(s string, defaultStyle Style) *StyledString
+  vocab C18_vocab: handles (*StyledString).Encode
+
 -- ------------------------------------------------------------------ key matching (C09)
 -- modifier masks are 8-bit sets (Shift Alt Ctrl Super Hyper Meta CapsLock NumLock)
 bits ModifierMask 8
+-- attribute masks are modelled natively as 8-bit vectors
+bvtype AttributeMask
 ufun unicode_IsLetter(r rune) bool
 ufun unicode_IsGraphic(r rune) bool
 ufun unicode_IsLower(r rune) bool
